@@ -53,7 +53,8 @@ type Plan struct {
 	Chunk     int         `json:"chunk"`
 	All       bool        `json:"all,omitempty"` // enumerate the whole fault space of this shape instead of the single Fault
 	Fault     FaultSpec   `json:"fault"`
-	Reader    bool        `json:"reader,omitempty"` // a second process looks entries up while the faulted Put runs
+	Reader    bool        `json:"reader,omitempty"`    // a second process looks entries up while the faulted Put runs
+	Companion bool        `json:"companion,omitempty"` // a healthy process stores the same content under another id while the faulted Put runs
 	Sched     simrt.Sched `json:"sched"`
 }
 
@@ -75,7 +76,7 @@ func genPlan(t *rapid.T, tier string) any {
 	p.Target = PutStep{rapid.IntRange(0, nIDs-1).Draw(t, "id"), rapid.IntRange(0, nc-1).Draw(t, "content")}
 	switch rapid.IntRange(0, 5).Draw(t, "predamage") {
 	case 0:
-		p.PreDamage = rapid.SampledFrom([]string{"same-size", "shorter", "longer"}).Draw(t, "damagekind")
+		p.PreDamage = rapid.SampledFrom([]string{"same-size", "shorter", "longer", "shorter-wrong"}).Draw(t, "damagekind")
 	case 1, 2:
 		// an index entry of another id (or an older one of this id) already names the
 		// target's output, whose data file is gone
@@ -106,6 +107,9 @@ func genPlan(t *rapid.T, tier string) any {
 	p.Fault = f
 	if tier == "thorough" && rapid.IntRange(0, 3).Draw(t, "reader") == 0 {
 		p.Reader = true
+	}
+	if rapid.IntRange(0, 4).Draw(t, "companion") == 0 {
+		p.Companion = true
 	}
 	p.Sched = gen.Sched(t, 200)
 	return p
@@ -143,9 +147,12 @@ func (e *env) verifyAll(c *cache.Cache, when string, checkUnrelated bool) {
 			got, rerr := os.ReadFile(file)
 			if rerr != nil || int64(len(got)) != fent.Size {
 				out.Violate("bad-file", "%s: GetFile(id%d) named a file of %d bytes (read error %v), reported size %d", when, i, len(got), rerr, fent.Size)
-			} else if p.PreDamage == "" && sha256.Sum256(got) != fent.OutputID {
+			} else if p.PreDamage == "" && !p.Companion && sha256.Sum256(got) != fent.OutputID {
 				out.Violate("bad-file", "%s: GetFile(id%d) named a file of the reported size %d whose content does not hash to the reported OutputID %x (cache was undamaged before the Put)", when, i, fent.Size, fent.OutputID[:4])
 			}
+		}
+		if p.Companion && i == (p.Target.ID+1)%nIDs {
+			continue // legitimately overwritten by the companion writer
 		}
 		if checkUnrelated && i != p.Target.ID && e.before[i] >= 0 && e.readable[i] {
 			if err != nil || !bytes.Equal(data, e.contents[e.before[i]]) {
@@ -177,6 +184,23 @@ func (e *env) runPut(a attempt) (err error, halted bool, finished bool) {
 		simos.Arm([]simos.Fault{f})
 	}
 	doneW, doneR := false, !p.Reader || a.label == "dry"
+	doneC := !p.Companion || a.label == "dry"
+	if !doneC {
+		e.proc++
+		cp := e.proc
+		e.s.Go("companion", cp, func() {
+			defer func() { doneC = true }()
+			c, oerr := cache.Open(e.dir)
+			if oerr != nil {
+				return
+			}
+			data := e.contents[p.Target.Content]
+			// a healthy writer of the same output under another id, fed in chunks so that it overlaps
+			if _, _, err := c.Put(cachekit.ActionID((p.Target.ID+1)%nIDs), &cachekit.ChunkReader{Data: data, Chunk: max(e.p.Chunk, len(data)/8)}); err == nil {
+				e.out.Count("companion_puts_completed", 1)
+			}
+		})
+	}
 	e.s.Go("writer", proc, func() {
 		defer func() {
 			doneW = true
@@ -216,7 +240,7 @@ func (e *env) runPut(a attempt) (err error, halted bool, finished bool) {
 			}
 		})
 	}
-	simrt.Block("join", func() bool { return doneW && doneR })
+	simrt.Block("join", func() bool { return doneW && doneR && doneC })
 	simos.Disarm()
 	return
 }
@@ -311,6 +335,10 @@ func run(t *testing.T, plan any, keep bool) *simcheck.Outcome {
 			}
 		case "longer":
 			os.WriteFile(tpath, append(append([]byte(nil), tdata...), "tail"...), 0o666)
+		case "shorter-wrong":
+			if len(tdata) > 1 {
+				os.WriteFile(tpath, cachekit.Content(778, len(tdata)/2), 0o666)
+			}
 		}
 		if p.Trimmed {
 			os.Remove(tpath)
@@ -504,6 +532,7 @@ var harness = &simcheck.Harness{
 		"'unrelated entry' = an entry of another action id that was readable exactly just before the failing Put (including one that shares the Put's output); the target id's own previous entry is not asserted",
 		"an output file that is absent while index entries still name it is a regular state (Trim leaves it), not damage: the GetFile content clause applies to it",
 		"real SIGKILL of real writer processes is replaced by the halt model so that the kill point is seed-determined",
+		"with a concurrent healthy writer of the same output (companion) only the checksum-verified and size clauses are asserted: a failing writer's truncate racing with another writer's copy is outside the statement's quantifier (single Put) and can leave a right-size file with wrong content that only GetBytes rejects",
 	},
 	RequiredCounters: []string{"fault_points_executed", "dry_run_file_ops", "outcome_put_error", "outcome_halted"},
 }
